@@ -116,11 +116,13 @@ func (t c16type) truth(operand *string, op, lit string) bool {
 // lexer's int64 parse, everything else quoted.
 func (t c16type) xlit(v string) string {
 	if t.rank != nil && t.name != "enumeration" && t.name != "boolean" {
-		if !strings.HasPrefix(v, "-") {
-			r, _ := new(big.Rat).SetString(v)
-			if r.Cmp(big.NewRat(1<<62, 1)) < 0 {
-				return v
-			}
+		r, _ := new(big.Rat).SetString(v)
+		if !strings.HasPrefix(v, "-") && r.Cmp(big.NewRat(1<<62, 1)) < 0 {
+			return v
+		}
+		// negative numbers and numbers beyond 2^62: bare or quoted (decided by the digits, so that both spellings occur)
+		if (len(v)+int(v[len(v)-1]))%2 == 0 && (r.IsInt() || t.name == "decimal64") && r.Cmp(new(big.Rat).SetInt(new(big.Int).Lsh(big.NewInt(1), 64))) < 0 {
+			return v
 		}
 	}
 	return "'" + v + "'"
@@ -292,7 +294,12 @@ func (p c16) Run(c *core.Ctx, idx int) {
 		ops = []string{"=", "!="}
 	}
 	for _, op := range ops {
-		for _, lit := range t.values {
+		lits := append([]string{}, t.values...)
+		if lo, hi := dp.IntBounds(t.name); lo != nil {
+			// a literal the operand's type cannot hold still compares mathematically
+			lits = append(lits, new(big.Int).Sub(lo, big.NewInt(1)).String(), new(big.Int).Add(hi, big.NewInt(1)).String())
+		}
+		for _, lit := range lits {
 			if t.name == "string" && lit == "" {
 				continue // '' is not distinguishable from no literal in this subset
 			}
